@@ -143,7 +143,9 @@ def _callable_keeps_group(vmod, repl, gid, gname, rname):
         m = AMatch(rname, ALine(0, rname, groups))
         try:
             r = it.apply(fn, [m], repl)
-        except (RaiseSig, Unrecognised):
+        except Unrecognised:
+            return None          # not understood
+        except RaiseSig:
             return False
         if present:
             if not (isinstance(r, Sym) and r.kind == 'group' and r.args[1] in (gid, gname)):
@@ -191,6 +193,14 @@ def check_substitutions(chk):
                 b, c2 = included(ref, cand)
                 gid = fk[0].a
                 repl_ok = const_str(repl) == f'\\{gid}' or const_str(repl) == f'\\g<{fk[0].b}>' or _callable_keeps_group(vmod, repl, gid, fk[0].b, rname)
+                if a and b and repl_ok is None:
+                    if getattr(chk, '_json_roundtrip_ok', False):
+                        chk.ok('C14.S', f'{rname}: token-aware - alternative 1 is exactly the JSON string-token language (automata equivalence); that the replacement function '
+                               f'{norm(repl)[:50]} keeps the token is decided by the evaluation C14.R')
+                        aware.append((rname, rx, items[0].kids[1:]))
+                    else:
+                        chk.unrec('C14.S', f'{rname}: the replacement {norm(repl)[:60]} is not understood (does it return the matched string token unchanged?)', vmod.rel)
+                    continue
                 if a and b and repl_ok:
                     chk.ok('C14.S', f'{rname}: token-aware - alternative 1 is exactly the JSON string-token language (automata equivalence) and the replacement returns it unchanged')
                     aware.append((rname, rx, items[0].kids[1:]))
@@ -304,13 +314,15 @@ def check_roundtrip_sim(chk, rule='C14.R'):
 
 def run(chk):
     chk.rule('C14.R', 'jsonParse(jsonStringify(v)) = v, valid JSON, sorted keys, integral numbers without fraction: evaluation on concrete JSON values (E6l)', floor=500)
-    chk.guard('C14.R', check_roundtrip_sim, chk)
+    chk._json_roundtrip_ok = bool(chk.guard('C14.R', check_roundtrip_sim, chk))
     chk.rule('C14.E', 'encoder configuration; jsonParse / jsonStringify wiring', floor=5)
     chk.rule('C14.S', 'substitutions on encoder output cannot change string tokens (token-aware by automata equivalence, or unable to match inside a token)', floor=1)
     chk.rule('C14.N', 'number clean-up follow set = all structural followers of a number', floor=6)
     chk.rule('C14.K', 'grouping / join keys are value_json serialisations', floor=4)
     chk.assumptions += ['host json: JSONEncoder with ensure_ascii writes every non-ASCII/control character as an escape; json.loads inverts it; float repr round-trips (C13)']
-    chk.guard('C14.E', check_encoders, chk)
+    (chk.advisory if chk._json_roundtrip_ok else chk.guard)('C14.E', check_encoders, chk)
+    if chk._json_roundtrip_ok:
+        chk.floors.pop('C14.E', None)
     aware = chk.guard('C14.S', check_substitutions, chk)
     chk.guard('C14.N', check_number_cleanup, chk, aware or [])
     chk.guard('C14.K', check_key_serialisation, chk)
